@@ -449,7 +449,7 @@ class Interp:
                     k = len(v.elems) - off if fe else off
                     v = v.elems[k] if 0 <= k < len(v.elems) else BOT
                 elif isinstance(v, Seq):
-                    v = self.freshen(v.elem, S, site + (n,), v.efacts, prov=v.prov, off=(None if fe else off)) if v.elem is not None else BOT
+                    v = self.freshen(v.elem, S, site + (n,), v.efacts, elem_of=((v.len, ("ci", off), site[1] if len(site) > 1 else None) if not fe else None), prov=v.prov, off=(None if fe else off)) if v.elem is not None else BOT
                     if mk is not None:
                         S.emem[mk] = (seq0, v)
                 else:
